@@ -408,6 +408,10 @@ func (s *sStream) quiescent() bool {
 
 // deliver acknowledges the next live Send of s (releasing it with rel) or reports that nothing is coming.
 func (s *sStream) deliver(rel error) string {
+	if s.returned {
+		// SyncChain is over; a worker that still drains its closed channel into the dead stream is not the client's business
+		return "none"
+	}
 	deadline := time.Now().Add(watchdog())
 	for {
 		select {
